@@ -483,6 +483,37 @@ func valIdentical(a, b Value) bool {
 	case ChanRef:
 		y, ok := b.(ChanRef)
 		return ok && x == y
+	case Iface:
+		y, ok := b.(Iface)
+		if !ok {
+			return false
+		}
+		if x.T == nil || y.T == nil {
+			return x.T == nil && y.T == nil
+		}
+		return types.Identical(x.T, y.T) && valIdentical(x.V, y.V)
+	case Agg:
+		y, ok := b.(Agg)
+		if !ok || len(x) != len(y) {
+			return false
+		}
+		for i := range x {
+			if !valIdentical(x[i], y[i]) {
+				return false
+			}
+		}
+		return true
+	case Closure:
+		y, ok := b.(Closure)
+		if !ok || x.Fn != y.Fn || x.Intr != y.Intr || len(x.Binds) != len(y.Binds) {
+			return false
+		}
+		for i := range x.Binds {
+			if !valIdentical(x.Binds[i], y.Binds[i]) {
+				return false
+			}
+		}
+		return true
 	case nil:
 		return b == nil
 	}
